@@ -162,10 +162,12 @@ def h17(E, M, case):
         change = ("sub", "unsub", "update", "unsub_x")
         return (a in change and b == "notify") or (a == "notify" and b in change) or (a == "update" and b == "sub") or (a == "sub" and b == "update")
 
+    same_tick = []  # kinds of the earlier calls that may share the tick of the next one
     for i, op in enumerate(case["ops"]):
-        lo = 1 if prev_kind is not None and conflicting(prev_kind, op[0]) else 0
+        lo = 1 if any(conflicting(k, op[0]) for k in same_tick) else 0
         t = t + E.int("dt%d" % i, lo, 50)
         kind = op[0]
+        same_tick = [kind] if lo else same_tick + [kind]
         prev_kind = kind
         if kind == "sub":
             ep = _ep(M, op[1])
